@@ -853,6 +853,13 @@ def replay_tape(wd, rp):
         tape = write_custom_tape(wd, tag, prog, org, fin, blocks, g)
         runs, dropped = run_matrix(tape, fin, cfgs, loads, wd, tag)
         return {'key': rp['key'], 'start': fin, 'expect': [d for _, d in loads], 'runs': runs, 'dropped': dropped, 'gen': g}
+    if rp['key'].startswith('irq/'):
+        g, tape, tag, fin, cnt, loads, fes, pos = make_irq_case(rnd, export_accelerators(), rg['idx'], wd)
+        if g != rp['gen']:
+            raise MachineryError('the replay file was written by a different version of the C13 irq generator: it now makes %s, recorded %s'
+                                 % (g, rp['gen']))
+        runs, dropped = run_matrix(tape, fin, cfgs, loads, wd, tag, bool(g['m128']))
+        return {'key': rp['key'], 'start': fin, 'expect': [d for _, d in loads], 'runs': runs, 'dropped': dropped, 'gen': g}
     g = loaddrv.gen_case(rnd, rg['idx'])
     if g['size'] > 7000:
         g['size'] = 6912
@@ -1006,3 +1013,207 @@ def probe_zero_gap_pause(wd):
     return {'key': 'probe/zero-gap-pause', 'start': org, 'expect': [data], 'runs': runs, 'dropped': [], 'names': 'rom',
             'gen': {'how': 'bin2tap -o 40000 of 50 bytes; every TAP block as TZX 0x10 with pause 0 ms; fast-load=0; pause=1 vs pause=0'},
             'tape': 'sg.tzx'}
+
+
+# ------------------------------------------------------------------------------------------------ part 3b
+# Custom loaders that keep interrupts ENABLED while they sample port 0xFE, on tapes whose block starts are placed at chosen
+# positions of the 50 Hz frame.  The first port read of a block moves the clock to the block's first edge; the tracer then has
+# to work out afresh when the next frame interrupt is due, separately in loadtracer.py and in csimulator.c.  The interrupt
+# routine changes memory (a counter / FRAMES), R and the stack, so a lost or an extra interrupt shows in the final snapshot.
+IRQ_FIXED = (0, 1, 7, 20, 21, 31, 32, -1)
+ISR_AT = 0xFFF4          # IM 2, I=$39: the vector is read from $39FF/$3A00 of the ROM (FF FF) -> $FFFF: JR $FFF4 (the byte at 0 is F3)
+PROLOGUE = 18
+
+
+def irq_edges(tape, first_edge, m128=False):
+    """Dry run of the real tape parser: the time of the first edge of every block as LoadTracer announces it
+    (edges[0] for the first block, the edge after the previous block's last one afterwards)."""
+    from skoolkit import tap2sna
+    from skoolkit.tape import get_edges
+    with open(tape, 'rb') as f:
+        data = f.read()
+    with contextlib.redirect_stdout(io.StringIO()):
+        blocks = tap2sna._get_tzx_blocks(data, True, 1, 0, (), not m128)
+        edges, dblocks = get_edges(blocks, first_edge, 0)
+    firsts = [edges[0]] + [edges[b.end + 1] for b in dblocks[:-1]]
+    return [int(x) for x in firsts]
+
+
+def gen_irq(rnd, accs, idx):
+    usable = [a for a in accs if ear_usable(a)]
+    acc = usable[(idx * 7 + 3) % len(usable)]
+    n = (1, 2, 3, 2)[idx % 4]
+    kinds = ['custom'] * n
+    if n > 1 and idx % 3 == 0:
+        kinds[rnd.randrange(1, n)] = 'rom'
+    frame = 70908 if idx % 8 == 5 else 69888
+    ds = [IRQ_FIXED[idx % 8], rnd.randrange(0, 21), rnd.randrange(0, 41), -rnd.randrange(1, 41)]
+    return dict(acc=acc['name'], dly=rnd.choice((0x16, 0x16, 0x0C)), decjp=int(rnd.random() < 0.3), org=rnd.choice((0x8000, 0x9C40, 0xB000)),
+                kinds=kinds, wait=rnd.choice((0x0020, 0x0030)), scale=rnd.choice((1.0, 0.95, 1.06)), lens=[rnd.choice((1, 2, 9, 30)) for _ in kinds],
+                flags=[rnd.choice((0xFF, 0xAA, 0x81)) for _ in kinds], stack=rnd.choice((0, 0x7F00)), im=2 if idx % 4 else 1,
+                m128=int(frame == 70908), frame=frame, ds=ds, deltas=[0] + [rnd.randrange(-6, 7) for _ in kinds[1:]],
+                gaps=[rnd.choice((400, 700, 1000)) for _ in kinds], npilot=rnd.choice((900, 1100, 1400)))
+
+
+def build_irq(rom, accs, g, rnd):
+    """-> (program, org, fin, counter address, blocks, loads).  Layout: prologue (IM n: EI) | stage code | loader (EI instead of
+    DI) | FIN: NOP: JP FIN | interrupt routine image | counter."""
+    acc = [a for a in accs if a['name'] == g['acc']][0]
+    if rom[0] != 0xF3 or rom[0x39FF] != 0xFF or rom[0x3A00] != 0xFF or rom[0x38] != 0xF5:
+        raise MachineryError('48.rom: no FF FF vector at $39FF or no DI at 0')
+    org = g['org']
+    n = len(g['kinds'])
+    lorg = org + PROLOGUE + 16 * n + 3
+    loader = bytearray(build_loader(rom, lorg, acc, g['dly'], g['wait'], bool(g['decjp'])))
+    if loader[3] != 0xF3:
+        raise MachineryError('no DI at LD-BYTES+3')
+    loader[3] = 0xFB                                  # EI: the loader samples the tape with interrupts enabled
+    fin = lorg + len(loader)
+    isr = fin + 4
+    cnt = isr + 12
+    dest = fin + 32
+    if g['im'] == 2:
+        pro = [0x21, isr % 256, isr // 256, 0x11, ISR_AT % 256, ISR_AT // 256, 0x01, 12, 0, 0xED, 0xB0, 0x3E, 0x39, 0xED, 0x47, 0xED, 0x5E, 0xFB]
+    else:
+        pro = [0x00] * 15 + [0xED, 0x56, 0xFB]        # IM 1 (IY still points at the system variables: started from BASIC): EI
+    # PUSH AF: PUSH HL: LD HL,cnt: INC (HL): POP HL: POP AF: EI: RET: NOP: JR $FFF4 (offset byte F3 at address 0)
+    isr_img = [0xF5, 0xE5, 0x21, cnt % 256, cnt // 256, 0x34, 0xE1, 0xF1, 0xFB, 0xC9, 0x00, 0x18]
+    stages, blocks, loads = [], [], []
+    tm = loader_timings(acc, g['dly'], g['scale'])
+    for kind, ln, flag in zip(g['kinds'], g['lens'], g['flags']):
+        data = [rnd.randrange(256) for _ in range(ln)]
+        stages.append((dest, ln, flag, ROM_LD_BYTES if kind == 'rom' else lorg))
+        blocks.append((kind, flag, data, tm))
+        loads.append((dest, data))
+        dest += ln + 2
+    prog = bytes(pro) + bytes(stage_code(stages, fin)) + bytes(loader) + bytes((0x00, 0xC3, fin % 256, fin // 256)) + bytes(isr_img) + bytes((0,))
+    if len(pro) != PROLOGUE or len(prog) != cnt + 1 - org:
+        raise MachineryError('irq program layout')
+    return prog, org, fin, cnt, blocks, loads
+
+
+def write_irq_tape(wd, tag, prog, org, blocks, g, fix):
+    """bin2tap's blocks, then for every block: a single pulse (its end is the block's first edge as the tracer sees it, so the
+    frame position of every block can be set to 1 T-state), the block, a pause.  fix[k] = (extra pause ms, pulse length)."""
+    from skoolkit import bin2tap
+    src = os.path.join(wd, tag + '.bin')
+    tap = os.path.join(wd, tag + '.tap')
+    with open(src, 'wb') as f:
+        f.write(prog)
+    args = ['-o', str(org), '-s', str(org)]
+    if g['stack']:
+        args += ['-p', str(g['stack'])]
+    _, e, rc = pipedrv.run_tool(bin2tap.main, args + [src, tap])
+    if rc or not os.path.isfile(tap):
+        raise MachineryError('bin2tap failed for an irq loader program: %s' % e[-300:])
+    raw = open(tap, 'rb').read()
+    out = bytearray(tapedrv.tzx_header())
+    i = 0
+    nb = 0
+    while i + 2 <= len(raw):
+        ln = raw[i] + 256 * raw[i + 1]
+        nb += 1
+        i += 2 + ln
+    i = 0
+    k = 0
+    while i + 2 <= len(raw):
+        ln = raw[i] + 256 * raw[i + 1]
+        k += 1
+        out += tapedrv.tzx10(raw[i + 2:i + 2 + ln], 1000 + (fix[0][0] if k == nb else 0))
+        i += 2 + ln
+    for k, (kind, flag, data, tm) in enumerate(blocks):
+        payload = bytes([flag] + data + [parity(flag, data)])
+        last = k == len(blocks) - 1
+        pause = 0 if last else g['gaps'][k] + fix[k + 1][0]
+        out += tapedrv.tzx13([fix[k][1]])
+        if kind != 'custom':
+            out += tapedrv.tzx10(payload, pause)
+        else:
+            out += tapedrv.tzx11(payload, pilot=tm['pilot'], sync1=tm['sync1'], sync2=tm['sync2'], zero=tm['zero'], one=tm['one'],
+                                 pilot_len=g['npilot'], used=8, pause_ms=pause)
+    path = os.path.join(wd, tag + '.tzx')
+    with open(path, 'wb') as f:
+        f.write(out)
+    return path, nb
+
+
+def irq_matrix(rnd, g, fes, names):
+    cfgs = [{}]
+    for j, fe in enumerate(fes):
+        e = {'first-edge': fe}
+        cfgs += [e, dict(e, python=1), dict(e, accelerator='none', python=j % 2),
+                 dict(e, pause=0, python=(j + 1) % 2, accelerator=rnd.choice(('auto', names)))]
+        if j == 0:
+            cfgs += [dict(e, cmio=1), dict(e, cmio=1, python=1)]
+        if j == 1:
+            cfgs += [dict(e, **{'fast-load': 0}), dict(e, **{'fast-load': 0, 'python': 1, 'accelerate-dec-a': rnd.choice((1, 2))})]
+    return cfgs
+
+
+def make_irq_case(rnd, accs, idx, sub):
+    """The tape and its first-edge values: two passes over the real parser's edge list fix the frame position of every block."""
+    rom = rom48()
+    g = gen_irq(rnd, accs, idx)
+    if g['m128']:
+        with open(os.path.join(REPO, 'skoolkit', 'resources', '128-1.rom'), 'rb') as f:
+            r1 = f.read()
+        if r1[0] != 0xF3 or r1[0x39FF] != 0xFF or r1[0x3A00] != 0xFF:
+            raise MachineryError('128-1.rom: no FF FF vector at $39FF or no DI at 0')
+    prog, org, fin, cnt, blocks, loads = build_irq(rom, accs, g, rnd)
+    frame = g['frame']
+    tag = 'q%d' % idx
+    n = len(blocks)
+    fix = [(0, 1200)] * n
+    tape, nb = write_irq_tape(sub, tag, prog, org, blocks, g, fix)
+    for k in range(1, n):
+        firsts = irq_edges(tape, 0, g['m128'])[nb:]
+        if len(firsts) != n:
+            raise MachineryError('irq tape: %d blocks announced, expected %d' % (len(firsts), n))
+        s = (g['deltas'][k] - (firsts[k] - firsts[0])) % frame
+        fix[k] = (s // 3500, 1200 + (s % 3500))
+        tape, nb = write_irq_tape(sub, tag, prog, org, blocks, g, fix)
+    firsts = irq_edges(tape, 0, g['m128'])[nb:]
+    if len(firsts) != n or any((firsts[k] - firsts[0] - g['deltas'][k]) % frame for k in range(n)):
+        raise MachineryError('irq tape: block starts %s do not have the frame offsets %s' % (firsts, g['deltas']))
+    fes = []
+    for d in g['ds']:
+        fe = (d - firsts[0]) % frame
+        if fe not in fes:
+            fes.append(fe)
+    # where every block starts in its frame under every first-edge value (again from the real edge list)
+    pos = {}
+    for fe in fes:
+        pos[fe] = [x % frame for x in irq_edges(tape, fe, g['m128'])[nb:]]
+    return g, tape, tag, fin, cnt, loads, fes, pos
+
+
+def irq_worker(args):
+    seed, indices, tier, wd = args
+    _skool()
+    rnd = random.Random(seed)
+    accs = export_accelerators()
+    sub = os.path.join(wd, 'irq%d' % seed)
+    os.makedirs(sub, exist_ok=True)
+    out = []
+    for idx in indices:
+        st = replaylib.rnd_state(rnd)
+        g, tape, tag, fin, cnt, loads, fes, pos = make_irq_case(rnd, accs, idx, sub)
+        names = g['acc'] + (',rom' if 'rom' in g['kinds'] else '')
+        cfgs = irq_matrix(rnd, g, fes, names)
+        t0 = time.time()
+        where = [(23672, [0, 0, 0])] if g['im'] == 1 else [(cnt, [0])]
+        runs, dropped = run_matrix(tape, fin, cfgs, loads + where, sub, tag, bool(g['m128']))
+        ints = []
+        for u in runs:
+            v = u['data'].pop() if u['data'] else []
+            ints.append(sum(x << (8 * i) for i, x in enumerate(v)) if v and min(v) >= 0 else -1)
+        frame = g['frame']
+        early = sum(1 for u in runs for p in pos.get(parse_cfg(u['cfg']).get('first-edge', -1), ()) if p < 21)
+        window = sum(1 for u in runs for p in pos.get(parse_cfg(u['cfg']).get('first-edge', -1), ()) if p < 32)
+        out.append({'key': 'irq/im%d/%s/%s%s' % (g['im'], g['acc'], '+'.join(g['kinds']), '/128' if g['m128'] else ''), 'start': fin,
+                    'expect': [d for _, d in loads], 'runs': runs, 'dropped': dropped, 'gen': g, 'tape': os.path.basename(tape), 'names': names,
+                    'wall': round(time.time() - t0, 2), 'regen': dict(st, idx=idx), 'irq': dict(ints=ints, early=early, window=window, pos={str(k): v for k, v in pos.items()})})
+        for f in os.listdir(sub):
+            if f.startswith(tag + '.'):
+                os.remove(os.path.join(sub, f))
+    return out
